@@ -75,6 +75,8 @@ enum Src {
     LatestForOtherCandidate,
     /// the latest set signs keccak(XDR((ApproveMessages, candidate))) instead of the rotation hash
     LatestUnderApproveCommand,
+    /// the latest set with its first entry listed twice (both signed)
+    LatestWithRepeatedEntry,
 }
 
 #[derive(Clone, Copy, Debug, PartialEq, Eq, Hash, Serialize, Deserialize)]
@@ -184,7 +186,7 @@ impl Scenario for C03 {
             v.push(Act::Advance(1_100_000));
         }
         for cand in [A, B, C, I0, I1] {
-            for src in [Src::Latest, Src::Older, Src::Outdated, Src::NeverInstalled, Src::LatestForOtherCandidate, Src::LatestUnderApproveCommand] {
+            for src in [Src::Latest, Src::Older, Src::Outdated, Src::NeverInstalled, Src::LatestForOtherCandidate, Src::LatestUnderApproveCommand, Src::LatestWithRepeatedEntry] {
                 for byp in [Byp::No, Byp::Operator, Byp::NoAuth, Byp::OwnerAuth] {
                     if byp == Byp::OwnerAuth && src != Src::Older {
                         continue;
@@ -269,7 +271,7 @@ impl Scenario for C03 {
                 // who signs
                 let never = SetSpec { signers: vec![(3, 1)], threshold: 1, nonce: 77 };
                 let (signer_spec, signer_epoch): (Option<SetSpec>, Option<usize>) = match src {
-                    Src::Latest | Src::LatestForOtherCandidate | Src::LatestUnderApproveCommand => (ctx.specs[m.installed[n - 1]].clone(), Some(n)),
+                    Src::Latest | Src::LatestForOtherCandidate | Src::LatestUnderApproveCommand | Src::LatestWithRepeatedEntry => (ctx.specs[m.installed[n - 1]].clone(), Some(n)),
                     Src::Older => {
                         if n >= 2 {
                             (ctx.specs[m.installed[n - 2]].clone(), Some(n - 1))
@@ -302,7 +304,20 @@ impl Scenario for C03 {
                 } else {
                     signed_for.rotation_data_hash()
                 };
-                let proof = honest_proof(&ctx.keys, &spec, &DOMAIN, &data_hash);
+                let proof = if *src == Src::LatestWithRepeatedEntry {
+                    // declared set = the installed set with its first signer listed twice; every entry signs
+                    // the digest built from the *installed* set's hash
+                    let installed = spec.raw(&ctx.keys);
+                    let mut declared = installed.clone();
+                    let first = declared.signers[0];
+                    declared.signers.insert(0, first);
+                    let d = digest(&DOMAIN, &installed.hash(), &data_hash);
+                    let mut sigs = vec![Some(sign(&ctx.keys, spec.signers[0].0, &d))];
+                    sigs.extend(spec.signers.iter().map(|(k, _)| Some(sign(&ctx.keys, *k, &d))));
+                    proof_scval(&declared, &sigs)
+                } else {
+                    honest_proof(&ctx.keys, &spec, &DOMAIN, &data_hash)
+                };
                 let bypass = *byp != Byp::No;
                 let auth: Vec<Address> = match byp {
                     Byp::Operator => vec![ctx.operator.clone()],
@@ -317,7 +332,7 @@ impl Scenario for C03 {
                 );
                 out.accepted = call.ok;
                 let proof_ok = match (src, signer_epoch) {
-                    (Src::LatestForOtherCandidate, _) | (Src::LatestUnderApproveCommand, _) => false,
+                    (Src::LatestForOtherCandidate, _) | (Src::LatestUnderApproveCommand, _) | (Src::LatestWithRepeatedEntry, _) => false,
                     (_, None) => false,
                     (_, Some(e)) => match byp {
                         Byp::No => e == n,
@@ -399,7 +414,7 @@ fn main() {
         let mut o = Opts::new(tier, if thorough { 9 } else { 7 });
         o.min_depth = 3;
         o.xcheck = tier == "thorough";
-        o.rule = "retention 1 (thorough: also 0 and 2); construction through a factory with initial lists [], [I0], [I0,I1], [I0,I0], [I0,I1,I0], [I0,I1,A], [A,A,B], [I0,malformed_i], [malformed_i] (8 malformed shapes: empty, adjacent duplicate key, descending keys, all-zero key, zero weight, weights summing past u128, threshold 0, threshold total+1); then all rotation sequences over candidates {A,B,C(threshold==total),I0,I1, 8 malformed} x proof source {latest, older retained, outdated, never-installed, latest-signing-another-candidate, latest-signing-under-the-approval-command-tag} x bypass {no, operator, no auth, owner auth}; after every new state epoch(), signers_hash_by_epoch(e) for all e in 0..=epoch+1 and epoch_by_signers_hash(h) for all 13 candidate hashes are compared with the installed list".into();
+        o.rule = "retention 1 (thorough: also 0 and 2); construction through a factory with initial lists [], [I0], [I0,I1], [I0,I0], [I0,I1,I0], [I0,I1,A], [A,A,B], [I0,malformed_i], [malformed_i] (8 malformed shapes: empty, adjacent duplicate key, descending keys, all-zero key, zero weight, weights summing past u128, threshold 0, threshold total+1); then all rotation sequences over candidates {A,B,C(threshold==total),I0,I1, 8 malformed} x proof source {latest, older retained, outdated, never-installed, latest-signing-another-candidate, latest-signing-under-the-approval-command-tag, latest with one entry listed twice} x bypass {no, operator, no auth, owner auth}; after every new state epoch(), signers_hash_by_epoch(e) for all e in 0..=epoch+1 and epoch_by_signers_hash(h) for all 13 candidate hashes are compared with the installed list".into();
         (s, o)
     });
 }
